@@ -305,7 +305,7 @@ func c15Triples(c *fw.Case) {
 // c15SQLDomain: values at which the decimal text, the value comparison and the
 // join key fingerprint are all defined and must agree.
 var c15SQLNums = []any{int(1), int8(1), uint(1), float64(1), uint8(200), float64(200), int16(200), float32(2), int64(2), uint64(3), int32(3), float64(1.5), float32(1.5), int(-1), float64(-1), int8(-1),
-	uint16(65535), int32(65535), float64(65535), uint32(70000), int(70000), float64(0), int(0), uint8(0), float32(0.25), float64(0.25), int64(42), float64(42), uint(42),
+	uint16(65535), int32(65535), float64(65535), uint32(70000), int(70000), float64(0), int(0), uint8(0), math.Copysign(0, -1), float32(0.25), float64(0.25), int64(42), float64(42), uint(42),
 	// integers that print with an exponent as floats: here they come as integer types only
 	int(1000003), int64(1000003), uint32(1000003), int(4000000), uint64(4000000), float64(1000003), float64(4000000), float64(1500000),
 	// single-precision values that are not short in binary, next to the doubles of the same decimal text and of the same value
